@@ -619,7 +619,7 @@ pub fn run_c22(ctx: &mut Ctx) {
         }
         ctx.count("small_int_cases");
     }
-    let n = ctx.n(80_000, 10_000_000);
+    let n = ctx.n(600_000, 20_000_000);
     random_cases!(ctx, n, |r, _i| {
         let mut f = Forest::new();
         let ma = if r.chance(1, 30) { 5000 } else { 60 };
@@ -725,7 +725,7 @@ pub fn run_c23(ctx: &mut Ctx) {
             }
         }
     }
-    let n = ctx.n(30_000, 3_000_000);
+    let n = ctx.n(200_000, 6_000_000);
     random_cases!(ctx, n, |r, _i| {
         let mut f = Forest::new();
         let max_atom = *r.pick(&[0usize, 3, 40, 40, 2000, 60_000]);
@@ -806,7 +806,7 @@ fn check24(ctx: &mut Ctx, r: &mut Rng, f: &Forest, t: Id) {
 }
 
 pub fn run_c24(ctx: &mut Ctx) {
-    let n = ctx.n(150_000, 20_000_000);
+    let n = ctx.n(500_000, 20_000_000);
     random_cases!(ctx, n, |r, _i| {
         let mut f = Forest::new();
         let mut t = small_tree(&mut r, &mut f, 200, 50);
